@@ -103,3 +103,12 @@ func formatChunkedStringPreserveIndent(chunk, indent string) string {
 	}
 	return buf.String()
 }
+
+// A statement or a declaration property starts a new group of lines (the unit of alignment and sorting)
+// when an empty line is printed above it, either above the node itself or above its leading comments.
+func startsGroup(meta *ast.Meta) bool {
+	if meta.PreviousEmptyLines > 0 {
+		return true
+	}
+	return len(meta.Leading) > 0 && meta.Leading[0].PreviousEmptyLines > 0
+}
